@@ -133,11 +133,14 @@ SubstScan(x, o, t, inst, p, seen) ==
               \o SubstScan(x, o, t, inst, p + Len(o), seen + 1)
        ELSE <<x[p]>> \o SubstScan(x, o, t, inst, p + 1, seen)
 
-\* o overlaps itself when a proper prefix is also a suffix ("aa", "aba"):
-\* then "the i-th occurrence" is ambiguous in the statement.
+\* o overlaps itself when a proper prefix is also a suffix ("aa", "aba").
+\* Occurrences are counted by the left-to-right scan that resumes after each
+\* occurrence (what "replace all" does in Excel and everywhere else), so the
+\* i-th occurrence is well defined for such texts too: SUBSTITUTE("aaaa",
+\* "aa", "X", 2) = "aaX".  Only the empty old text stays unjudged.
 SelfOverlap(o) == \E m \in 1..(Len(o) - 1) :
                      SubSeq(o, 1, m) = SubSeq(o, Len(o) - m + 1, Len(o))
-SubstJudged(o) == o # <<>> /\ ~SelfOverlap(o)
+SubstJudged(o) == o # <<>>
 
 SubstituteAll(x, o, t) ==
   IF SubstJudged(o) THEN T(SubstScan(x, o, t, 0, 1, 0)) ELSE Unjudged
@@ -401,7 +404,7 @@ ReplaceDown(x, P, lo, t) ==
 \* are fewer); without i every occurrence is replaced
 SubstLaw == Slicing =>
   \A o \in FindTexts(s), t \in NewTexts :
-    SubstJudged(o) =>
+    SubstJudged(o) /\ ~SelfOverlap(o) =>     \* every match position is an occurrence
       LET P == Matches(o, s)
       IN  /\ \A i \in 1..(Cardinality(P) + 1) :
                 SubstituteNth(s, o, t, i) =
@@ -411,6 +414,14 @@ SubstLaw == Slicing =>
           /\ SubstituteAll(s, o, o) = T(s)
           /\ Len(SubstituteAll(s, o, t)[2]) =
                Len(s) + Cardinality(P) * (Len(t) - Len(o))
+
+\* self-overlapping old text: occurrences are those of the resuming scan
+SubstOverlapLaw == Slicing =>
+  \A o \in FindTexts(s), t \in NewTexts :
+    SubstJudged(o) /\ SelfOverlap(o) =>
+      /\ SubstituteAll(s, o, o) = T(s)
+      /\ SubstituteNth(s, o, o, 1) = T(s)
+      /\ (Matches(o, s) = {} => SubstituteAll(s, o, t) = T(s))
 
 \* CONCATENATE and & agree (also on errors: the first one wins)
 ConcatLaw == Slicing =>
